@@ -178,7 +178,7 @@ var inlineExternal = map[string]bool{}
 
 func isLogCall(fn *ssa.Function) bool {
 	p := funcPkgPath(fn)
-	return p == "perun.network/go-perun/log" || strings.HasPrefix(p, "github.com/sirupsen/logrus")
+	return p == "perun.network/go-perun/log" || p == "log" || strings.HasPrefix(p, "github.com/sirupsen/logrus")
 }
 
 // logCall: logging has no effect on the modelled state; Panic* functions panic.
@@ -658,8 +658,11 @@ func (e *Engine) modularCallSig(st *State, sig *types.Signature, name string, ct
 			postEnv[fmt.Sprintf("result%d", i)] = specBind{res.Elems[i], sig.Results().At(i).Type()}
 		}
 	}
-	post := &specCtx{e: e, st: st, heap: st.Heap, oldHeap: callHeap, oldAlloc: callAlloc, env: postEnv, pkg: e.specPkg(ct)}
+	post := &specCtx{e: e, st: st, heap: st.Heap, oldHeap: callHeap, oldAlloc: callAlloc, env: postEnv, pkg: e.specPkg(ct), oldGhost: callGhost}
 	for _, en := range ct.Ensures {
+		if en.Trusted {
+			e.Assumed["trusted postcondition of "+ct.Pkg+"::"+ct.Key+" (assumed at call sites, not checked): "+en.Src] = true
+		}
 		e.assume(st, e.evalClause(post, en))
 	}
 	// copy-out for interior pointers
@@ -702,7 +705,11 @@ func (e *Engine) havocLocs(st *State, locs []Loc) {
 	for _, l := range locs {
 		if strings.HasPrefix(l.Class, "ghost:") {
 			name := strings.TrimPrefix(l.Class, "ghost:")
-			st.Ghost[name] = tb.Fresh("ghost_"+name, SInt)
+			gs, ok := ghostSorts[name]
+			if !ok {
+				gs = SInt
+			}
+			st.Ghost[name] = tb.Fresh("ghost_"+name, gs)
 			if st.Disc != nil {
 				st.Disc.Ghosts[name] = true
 			}
@@ -711,10 +718,24 @@ func (e *Engine) havocLocs(st *State, locs []Loc) {
 		h := e.H(st, l.Class, l.Sort)
 		switch {
 		case l.Idx == nil:
-			e.setH(st, l.Class, tb.Store(h, l.Ref, tb.Fresh("hv_"+l.Class, l.Sort.ElemSort())))
+			nv := tb.Fresh("hv_"+l.Class, l.Sort.ElemSort())
+			e.setH(st, l.Class, tb.Store(h, l.Ref, nv))
+			if rg, ok := e.classRanges[l.Class]; ok {
+				if nv.Sort == SInt {
+					e.assumeQuiet(st, tb.And(tb.Le(tb.BigInt(rg[0]), nv), tb.Le(nv, tb.BigInt(rg[1]))))
+				} else if nv.Sort == SArrI {
+					i := tb.BoundVar("i", SInt)
+					v := tb.Select(nv, i)
+					e.assumeQuiet(st, tb.Forall([]*Term{i}, tb.And(tb.Le(tb.BigInt(rg[0]), v), tb.Le(v, tb.BigInt(rg[1]))), []*Term{v}))
+				}
+			}
 		default:
 			row := tb.Select(h, l.Ref)
-			e.setH(st, l.Class, tb.Store(h, l.Ref, tb.Store(row, l.Idx, tb.Fresh("hv_"+l.Class, l.Sort.ElemSort().ElemSort()))))
+			nv := tb.Fresh("hv_"+l.Class, l.Sort.ElemSort().ElemSort())
+			e.setH(st, l.Class, tb.Store(h, l.Ref, tb.Store(row, l.Idx, nv)))
+			if rg, ok := e.classRanges[l.Class]; ok && nv.Sort == SInt {
+				e.assumeQuiet(st, tb.And(tb.Le(tb.BigInt(rg[0]), nv), tb.Le(nv, tb.BigInt(rg[1]))))
+			}
 		}
 	}
 }
